@@ -6,7 +6,8 @@ import sys
 sys.path.insert(0, os.path.join(V, 'bin'))
 import specs
 specs.load_all()
-CLAIMED = specs.MANIFEST
+ALLOW = [l.strip() for l in open(os.path.join(V, 'bin', 'claimed.txt')) if l.strip() and not l.startswith('#')]
+CLAIMED = {k: v for k, v in specs.MANIFEST.items() if k in ALLOW}
 NOT_YET = {}
 def main():
     props = [json.loads(l) for l in open(os.path.join(V, "properties.jsonl"))]
